@@ -142,15 +142,15 @@ package io
 //@   use decwf
 //@   let lp0 = ghost.rpos[ival(dec.reader)] - dec.tail + dec.head
 //@   modifies @DECWIN, dec.buf[*]
-//@   loop 1 invariant safe && (data == nil || isnew(arr(data))) && arr(data) != arr(dec.buf) && 0 <= dec.head && dec.head <= dec.tail && dec.tail <= len(dec.buf)
-//@   loop 1 invariant dec.reader != nil ==> ghost.rpos[ival(dec.reader)] - dec.tail + dec.head == lp0 + len(data) && len(dec.buf) > 0 && ghost.rpos[ival(dec.reader)] >= dec.tail
-//@   loop 1 invariant dec.reader != nil ==> forall(j, off(dec.buf) + dec.head, off(dec.buf) + dec.tail, mem(dec.buf, j) == ghost.rstream[ival(dec.reader)][ghost.rpos[ival(dec.reader)] - dec.tail - off(dec.buf) + j])
-//@   loop 1 invariant forall(j, off(dec.buf) + dec.head, off(dec.buf) + dec.tail, mem(dec.buf, j) != delim)
-//@   loop 1 invariant dec.reader != nil ==> forall(j, off(data), off(data) + len(data), mem(data, j) == ghost.rstream[ival(dec.reader)][lp0 - off(data) + j])
-//@   loop 1 invariant forall(j, off(data), off(data) + len(data), mem(data, j) != delim)
-//@   loop 1 invariant dec.reader == nil ==> same(dec.buf, old(dec.buf)) && dec.tail == old(dec.tail) && dec.head + len(data) == old(dec.head) + len(data) + len(data) - len(data)
-//@   loop 1 invariant old(dec.Error) != nil ==> dec.Error != nil
-//@   loop 1 invariant arr(dec.buf) == old(arr(dec.buf)) || isnew(arr(dec.buf))
+//@   loop 1 invariant [shape] safe && (data == nil || isnew(arr(data))) && arr(data) != arr(dec.buf) && 0 <= dec.head && dec.head <= dec.tail && dec.tail <= len(dec.buf)
+//@   loop 1 invariant [position] dec.reader != nil ==> ghost.rpos[ival(dec.reader)] - dec.tail + dec.head == lp0 + len(data) && len(dec.buf) > 0 && ghost.rpos[ival(dec.reader)] >= dec.tail
+//@   loop 1 invariant [coupling] dec.reader != nil ==> forall(j, off(dec.buf) + dec.head, off(dec.buf) + dec.tail, mem(dec.buf, j) == ghost.rstream[ival(dec.reader)][ghost.rpos[ival(dec.reader)] - dec.tail - off(dec.buf) + j])
+//@   loop 1 invariant [window_has_no_delimiter] forall(j, off(dec.buf) + dec.head, off(dec.buf) + dec.tail, mem(dec.buf, j) != delim)
+//@   loop 1 invariant [data_is_the_stream] dec.reader != nil ==> forall(j, off(data), off(data) + len(data), mem(data, j) == ghost.rstream[ival(dec.reader)][lp0 - off(data) + j])
+//@   loop 1 invariant [data_has_no_delimiter] forall(j, off(data), off(data) + len(data), mem(data, j) != delim)
+//@   loop 1 invariant [memory] dec.reader == nil ==> same(dec.buf, old(dec.buf)) && dec.tail == old(dec.tail)
+//@   loop 1 invariant [sticky] old(dec.Error) != nil ==> dec.Error != nil
+//@   loop 1 invariant [bufid] arr(dec.buf) == old(arr(dec.buf)) || isnew(arr(dec.buf))
 //@   ensures [stream_position] dec.reader != nil ==> ghost.rpos[ival(dec.reader)] - dec.tail + dec.head == lp0 + len(data) + 1 ||
 //@       (dec.Error != nil && ghost.rpos[ival(dec.reader)] - dec.tail + dec.head == lp0 + len(data))
 //@   ensures [stream_content] dec.reader != nil ==> forall(j, off(data), off(data) + len(data), mem(data, j) == ghost.rstream[ival(dec.reader)][lp0 - off(data) + j])
